@@ -8,7 +8,8 @@ MODULE = "Nice.Props.C20"
 THEOREMS = [f"Nice.Props.C20.{t}" for t in (
     "C20_bounded_rounds", "C20_unbounded_reauth", "C20_candidates_sound", "C20_done_once",
     "C20_silent_item_transmissions", "run_done_stays",
-    "C20_done_only_when_all_done", "tick_body_spec", "forEach_spec", "C20_tick_return_values")]
+    "C20_done_only_when_all_done", "tick_body_spec", "forEach_spec", "C20_tick_return_values")] + [
+    "Nice.Props.C20Relay.C20_stale_nonce_is_never_final", "Nice.Props.C20Relay.analysis_ok"]
 TRUSTED = [
     "Lean 4 kernel; axioms propext, Classical.choice, Quot.sound only (audited every run)",
     "Nice/Gen/DiscoveryTick.lean is REGENERATED on every run by tools/extract_ctl.py from the clang AST of agent/discovery.c "
